@@ -8,6 +8,9 @@ R-MINMAX         util.get_maximum / get_minimum: the value is one of the element
 R-IND-NAME       default names of distinct indicator classes differ (the solution is keyed by indicator name)
 R-IND-READ       build_solution stores model[indicator variable] under the indicator's name, for every indicator
 R-IND-CONSTRAINT IndicatorTarget / IndicatorBounds
+R-COST-FUNC      the callable each cost Function class installs denotes the documented function of its argument
+                 (constant, slope*x+intercept, sum of coefficients[j]*x^(n-j) by loop invariant), and Function.__call__
+                 returns that callable's value for its argument
 R-UNION-EXH      (known) readers of a cumulative resource's own busy dict
 Oracle: docs/indicator.md, docs/objectives.md, docstrings (Pinedo definitions).
 """
@@ -470,5 +473,121 @@ def r_ind_constraint(ctx):
     ctx.floor("R-IND-CONSTRAINT", "IndicatorBounds configurations", n, 3)
 
 
-RULES = [r_ind_def, r_minmax, r_ind_name, r_ind_read, r_ind_constraint,
+def r_cost_func(ctx):
+    """cost Function classes (docs/function.md, docs/resource.md): what set_function installs, applied to a symbolic x"""
+    X = S("x")
+    n = 0
+
+    def installed(cname):
+        runs = runs_of(ctx, Entry("init", cls=cname, post_call=("_function", ("x",))))
+        fails_closed(ctx, "R-COST-FUNC", runs)
+        return [r for r in runs if not r.rejected]
+
+    rows = {
+        "Function": ("the default function is 0", K(0)),
+        "ConstantFunction": ("f(x) = value", T("value")),
+        "LinearFunction": ("f(x) = slope * x + intercept", add(mul(T("slope"), X), T("intercept"))),
+        "GeneralFunction": ("f(x) = function(x)", ("call", "self._function", (T("function"), X), ())),
+    }
+    for cname, (doc, spec) in rows.items():
+        for run in installed(cname):
+            n += 1
+            where = f"{cname}.__init__"
+            if run.retval is not None and canon(norm(run.retval)) == canon(norm(spec)):
+                ctx.ok("R-COST-FUNC", f"{where} [{describe_config(run)}]", sample={"installed": show(norm(run.retval))[:200]})
+            else:
+                ctx.violation("R-COST-FUNC", where, doc,
+                              f"the installed callable returns {show(norm(run.retval))[:300] if run.retval is not None else 'nothing'}",
+                              first_line(ctx.project, cname))
+    # polynomial: decided by loop invariant
+    cname = "PolynomialFunction"
+    where = f"{cname}.__init__"
+    coeffs = T("coefficients")
+    length = ("call", "len", (coeffs,), ())
+    for run in installed(cname):
+        n += 1
+        doc = "f(x) = sum_j coefficients[j] * x^(len-1-j)"
+        location = first_line(ctx.project, cname)
+        rv = run.retval
+        if not (isinstance(rv, tuple) and rv and rv[0] == "loopout"):
+            raise P.AnalysisError(f"R-COST-FUNC: {cname}: the installed callable is not an accumulation loop "
+                                  f"({show(norm(rv))[:200] if rv is not None else None}); this form cannot be decided")
+        _, rname, L, init_r, body_r = rv
+        problems = []
+        rng = L[3] if len(L) > 3 else None
+        if not (isinstance(rng, tuple) and rng and rng[0] == "range" and len(rng) == 4):
+            raise P.AnalysisError(f"R-COST-FUNC: {cname}: the accumulation loop does not iterate over a range")
+        a, b, step = rng[1], rng[2], rng[3]
+        i = ("elem", L)
+        car_r = ("carried", rname, L, init_r)
+        others = [t for t in subterms(body_r) if isinstance(t, tuple) and t and t[0] == "carried" and t[1] != rname and t[2] == L]
+        if not others:
+            ctx.violation("R-COST-FUNC", where, doc, f"no running power of x in the accumulated term {show(norm(body_r))[:300]}", location)
+            continue
+        car_v = others[0]
+        vname, init_v = car_v[1], car_v[3]
+        vouts = [v for v in run.env.values() if isinstance(v, tuple) and v and v[0] == "loopout" and v[1] == vname and v[2] == L]
+        if not vouts:
+            raise P.AnalysisError(f"R-COST-FUNC: {cname}: update of the running power not found")
+        body_v = vouts[0][4]
+        step_term = add(car_r, mul(idx(coeffs, i), car_v))
+        inner = body_r
+        if inner[0] == "phi" and canon(norm(inner[3])) == canon(norm(car_r)):
+            if canon(norm(inner[1])) != canon(norm(ne(idx(coeffs, i), K(0)))):
+                problems.append(f"a term is skipped under {show(norm(inner[1]))[:120]}, which is not `coefficient != 0`")
+            inner = inner[2]
+        if canon(norm(inner)) != canon(norm(step_term)):
+            problems.append(f"each iteration adds {show(norm(inner))[:200]}, not result + coefficients[i] * power")
+        if canon(norm(body_v)) != canon(norm(mul(car_v, X))):
+            problems.append(f"the running power is updated to {show(norm(body_v))[:120]}, not power * x")
+        if canon(norm(init_v)) == canon(X):
+            p0 = 1
+        elif canon(norm(init_v)) == canon(K(1)):
+            p0 = 0
+        else:
+            p0 = None
+            problems.append(f"the running power starts at {show(norm(init_v))[:80]}, neither x nor 1")
+        if lin(step) != lin(K(-1)) or lin(b) != lin(K(-1)):
+            problems.append(f"the loop runs over range({show(norm(a))}, {show(norm(b))}, {show(norm(step))}); "
+                            "the indices must descend one by one down to 0")
+        if p0 is not None:
+            # iteration k pairs index a-k with power p0+k: documented pairing is index j <-> power len-1-j
+            if lin(add(a, K(p0))) != lin(sub(length, K(1))):
+                problems.append(f"the first iteration pairs coefficients[{show(norm(a))}] with x^{p0}; "
+                                f"documented pairing is coefficients[j] * x^(len-1-j)")
+            if p0 == 1:
+                last = (idx(coeffs, K(-1)), idx(coeffs, sub(length, K(1))))
+                if not any(canon(norm(init_r)) == canon(norm(t)) for t in last):
+                    problems.append(f"the constant term is {show(norm(init_r))[:80]}, not coefficients[-1]")
+            elif canon(norm(init_r)) != canon(K(0)):
+                problems.append(f"the accumulation starts at {show(norm(init_r))[:80]}, not 0")
+        if problems:
+            ctx.violation("R-COST-FUNC", where, doc, "; ".join(problems), location)
+        else:
+            ctx.ok("R-COST-FUNC", f"{where} [{describe_config(run)}]",
+                   sample={"invariant": f"after k iterations: sum_(j<=k) coefficients[len-1-j] * x^j; loop {show(norm(rng))[:120]}"})
+    # __call__ returns the installed callable's value for its argument
+    runs = runs_of(ctx, Entry("method", cls="Function", name="__call__"))
+    fails_closed(ctx, "R-COST-FUNC", runs)
+    for run in runs:
+        if run.rejected:
+            continue
+        n += 1
+        params = [e for e in run.env if e != "self"]
+        want = [("mcall", SELF, "_function", (S(p),), ()) for p in params]
+        if run.retval is not None and any(canon(norm(run.retval)) == canon(norm(w)) for w in want):
+            ctx.ok("R-COST-FUNC", f"Function.__call__ [{describe_config(run)}]", sample={"returns": show(norm(run.retval))[:120]})
+        else:
+            ctx.violation("R-COST-FUNC", "Function.__call__", "returns the installed function applied to the argument",
+                          f"returns {show(norm(run.retval))[:200] if run.retval is not None else 'nothing'}",
+                          first_line(ctx.project, "Function"))
+    # every Function subclass of the package is one of the classes above
+    known = set(rows) | {cname}
+    for c in ctx.project.classes.values() if hasattr(ctx.project, "classes") else []:
+        if c.name not in known and c.is_subclass_of("Function"):
+            raise P.AnalysisError(f"R-COST-FUNC: cost function class {c.name} has no specification row")
+    ctx.floor("R-COST-FUNC", "cost function class x configuration rows", n, 6)
+
+
+RULES = [r_ind_def, r_cost_func, r_minmax, r_ind_name, r_ind_read, r_ind_constraint,
          lambda ctx: resource_constraints.r_union_exh(ctx, bases=("Indicator", "Objective"))]
